@@ -214,3 +214,46 @@ func VH_C13_set_master_head(n int) {
 	zzvrt.Cover("three-increases", published == 3)
 	zzvrt.ObserveInt("published", published)
 }
+
+// The waiting calls themselves (their select statements are executed; timers never fire within the
+// explored step, so every explored call ends through its channel or through its cancelled context).
+// which = 0: WaitMasterchainSeqno, which = 1: BestMasterchainClient.
+func VH_C13_wait_calls(which int) {
+	p := New(BestPingStrategy)
+	best := &connection{id: 0, masterHeadUpdatedCh: p.masterHeadUpdatedCh}
+	head0 := zzvrt.NondetU32("head0")
+	best.masterHead.Seqno = head0
+	p.conns = []conn{best}
+	p.bestConn = best
+	ctx, cancel := context.WithCancel(context.Background())
+	cancelled := zzvrt.NondetBool("cancelled")
+	if cancelled {
+		cancel()
+	}
+	if which == 0 {
+		target := zzvrt.NondetU32("target")
+		zzvrt.Assume(cancelled || head0 >= target) // otherwise the call legitimately waits for its timer
+		err := p.WaitMasterchainSeqno(ctx, target, time.Second)
+		if head0 >= target && !cancelled {
+			zzvrt.Assert("reached-seqno-returns-success", err == nil)
+		}
+		if head0 < target {
+			zzvrt.Assert("cancelled-wait-returns-an-error", err != nil)
+		}
+		zzvrt.Cover("success", err == nil)
+		zzvrt.Cover("error", err != nil)
+	} else {
+		zzvrt.Assume(cancelled || head0 > 0)
+		cl, head, err := p.BestMasterchainClient(ctx)
+		if head0 > 0 {
+			zzvrt.Assert("initialised-connection-is-returned-at-once", err == nil && head.Seqno == head0 && cl == best.Client())
+		} else {
+			zzvrt.Assert("cancelled-wait-returns-an-error", err != nil)
+		}
+		zzvrt.Cover("success", err == nil)
+		zzvrt.Cover("error", err != nil)
+	}
+	zzvrt.Assert("unsubscribed-on-return", len(p.waitList) == 0)
+	cancel()
+	zzvrt.ObserveInt("waitlist", len(p.waitList))
+}
